@@ -1,8 +1,8 @@
 """C22 — printing a synthesised tree preserves its structure (printer/nodes.go: expr1, binaryExpr).
 
 A  Props/C22.v over Model/Expr.v (token-level printer + precedence-climbing parser, precedence table
-   regenerated from token/token.go): round trip for every tree whose operand positions satisfy
-   `posok`, refutation witnesses for the positions the printer gets wrong.
+   regenerated from token/token.go): termination, round trip for every well-formed tree but a lambda whose
+   body prints with a leading "(" (lamokb), refutation witness for that shape.
 B  K-diff on the same cases:  tokens(real printer output, real scanner) = pr e;
    parser.ParseExpr(text) ~ parse (pr e);  parser.ParseExpr(blank-separated tokens) ~ parse ts.
 C  direct oracle: printer.Fprint -> parser -> structural compare (parentheses stripped), on every
@@ -13,20 +13,23 @@ import hashlib
 
 CLAIM = {
     "level": "proof",
-    "text": "Coq theorems over a token-level model of printer.expr1/binaryExpr and of the expression parser reached from parser.ParseExpr "
-            "(identifier, literal, unary, star, binary over the regenerated precedence table, parenthesis, call with/without '...', index, "
-            "selector, error wrap with/without default, lambda): the parser model terminates on every token list (explicit fuel bound); for "
-            "EVERY tree whose operand positions satisfy the decidable predicate posokb, parse(print e) is e with exactly the printer's "
-            "parentheses inserted, so stripping parentheses gives e back and printing again gives the same tokens.  posokb fails exactly "
-            "where the real printer omits parentheses (ErrWrapExpr.X / .Default, StarExpr.X, a lambda or an 'x ?: d' as operand, a lambda "
-            "body starting with '('): for these the full statement is proved FALSE on the model and the failures are reproduced on the "
-            "implementation (known findings).  Tie on every run: K-gen (precedence function, token codes, the precedence context of every "
-            "operand in expr1, the parenthesisation conditions, mayCombine - all regenerated from the source and checked by computation) and "
-            "K-diff (exhaustive small scope + seeded: printer tokens, re-parse of printed text, parser on token streams).",
+    "text": "Coq theorems over a token-level model of printer.expr1/binaryExpr (as repaired in /repo 509854e) and of the expression parser "
+            "reached from parser.ParseExpr (identifier, literal, unary, star, binary over the regenerated precedence table, parenthesis, call "
+            "with/without '...', index, selector, error wrap with/without default, lambda): the parser model terminates on every token list "
+            "(explicit fuel bound); for EVERY well-formed tree except a lambda whose single result expression prints with a leading '(' "
+            "(decidable predicate lamokb), parse(print e) is e with exactly the printer's parentheses inserted, so stripping parentheses "
+            "gives e back and printing again gives the same tokens; the shapes the unrepaired printer got wrong (ErrWrapExpr.X/.Default, "
+            "StarExpr.X, lambda or 'x ?: d' as operand) are now proved instances.  For the excluded lambda shape the full statement is "
+            "proved FALSE on the model and reproduced on the implementation (known finding).  Tie on every run: K-gen (precedence function, "
+            "token codes, precedence constants, mayCombine - regenerated and checked by computation; the operand contexts of expr1 are "
+            "regenerated and reported) and K-diff (exhaustive small scope + seeded: printer tokens, re-parse of printed text, parser on "
+            "token streams).",
     "note": "Token level: blanks (cutoff/depth) and layout are not in the theorem; they are observed by scanning the real printer's text with "
             "the real scanner in the differential run (mayCombine itself is a checked table obligation).  XGo node kinds outside the model "
             "(range, command call, slice/composite/matrix literal, comprehension, env, domain text, number-unit, types, slices, type "
-            "assertions) are explored by the direct oracle only.  Trusted: Coq kernel, extraction, translator, harness.",
+            "assertions) are explored by the direct oracle only; their remaining failures (x! before ':', '[...]' read as an array type, a "
+            "lambda printed through p.expr as range operand / composite element / for-phrase condition) are listed known findings.  "
+            "Trusted: Coq kernel, extraction, translator, harness.",
 }
 
 # ---------------------------------------------------------------------------------------------
@@ -58,18 +61,18 @@ class Gen:
         h = n[0]
         if h == "bin":
             return self.prec[n[1]]
-        if h in ("un", "star"):
+        if h in ("un", "star", "ewd"):
             return 6
+        if h in ("lam", "lam2"):
+            return 0
         return 8
 
     def tlev(self, n):
         h = n[0]
         if h == "bin":
             return self.prec[n[1]]
-        if h in ("un", "star"):
+        if h in ("un", "star", "ewd"):
             return 6
-        if h == "ewd":
-            return 7
         if h in ("lam", "lam2"):
             return 0
         if h in ("rng", "kv", "cmd", "eell"):
@@ -85,7 +88,7 @@ class Gen:
         if h == "un":
             return [("X", n[2], 6, 6)]
         if h == "star":
-            return [("X", n[1], 0, 6)]
+            return [("X", n[1], 6, 6)]
         if h == "par":
             return [("X", n[1], 0, 0)]
         if h in ("call", "calle"):
@@ -103,9 +106,9 @@ class Gen:
         if h == "ta":
             return [("X", n[1], 7, 8)]
         if h == "ew":
-            return [("X", n[2], 0, 8)]
+            return [("X", n[2], 7, 8)]
         if h == "ewd":
-            return [("X", n[2], 0, 8), ("Default", n[3], 0, 6)]
+            return [("X", n[2], 7, 8), ("Default", n[3], 6, 6)]
         if h == "lam":
             i = list(n).index(":")
             return [("Rhs", a, 0, 0) for a in n[i + 1:]]
@@ -138,9 +141,9 @@ class Gen:
         if h == "un":
             return self.right_edge(n[2], 6)
         if h == "star":
-            return self.right_edge(n[1], 0)
+            return self.right_edge(n[1], 6)
         if h == "ewd":
-            return self.right_edge(n[3], 0)
+            return self.right_edge(n[3], 6)
         if h == "lam":
             i = list(n).index(":")
             if n[2] == "0" and i + 1 < len(n):
@@ -203,7 +206,7 @@ class Gen:
         if h in ("call", "calle", "idx", "idxl", "slice", "sel", "ta", "cmd"):
             return self.starts_with_paren(n[1], 7)
         if h in ("ew", "ewd"):
-            return self.starts_with_paren(n[2], 0)
+            return self.starts_with_paren(n[2], 7)
         if h in ("lam", "lam2"):
             return n[1] == "1"
         return False
@@ -362,14 +365,16 @@ REVIEWED_OPERANDS = [
     ("#possibleSelectorExpr", "x", "selectorExpr"), ("#possibleSelectorExpr", "expr", "prec1"), ("BinaryExpr", "x", "binaryExpr"),
     ("BinaryExpr#binaryExpr", "x", "expr0"), ("BinaryExpr#binaryExpr", "x.X", "prec"), ("BinaryExpr#binaryExpr", "x.Y", "prec + 1"),
     ("CallExpr", "x.Fun", "token.HighestPrec"), ("CallExpr", "x.Fun", "token.HighestPrec"), ("CallExpr", "x.Args", "exprList"),
-    ("CallExpr", "x.Args", "exprList"), ("ErrWrapExpr", "x.X", "expr"), ("ErrWrapExpr", "x.Default", "expr"),
-    ("IndexExpr", "x.X", "token.HighestPrec"), ("IndexExpr", "x.Index", "expr0"), ("LambdaExpr", "x.Lhs", "identList"),
+    ("CallExpr", "x.Args", "exprList"), ("ErrWrapExpr", "x.X", "token.HighestPrec"), ("ErrWrapExpr", "x.Default", "token.UnaryPrec"),
+    ("IndexExpr", "x.X", "token.HighestPrec"), ("IndexExpr", "x.Index", "expr0"), ("LambdaExpr", "x", "token.LowestPrec"), ("LambdaExpr", "x.Lhs", "identList"),
     ("LambdaExpr", "x.Lhs[0]", "expr"), ("LambdaExpr", "x.Rhs", "exprList"), ("LambdaExpr", "x.Rhs[0]", "expr"),
     ("ParenExpr", "x.X", "expr0"), ("ParenExpr", "x.X", "expr0"), ("SelectorExpr", "x", "selectorExpr"),
-    ("SelectorExpr#selectorExpr", "x.X", "token.HighestPrec"), ("StarExpr", "x.X", "expr"), ("StarExpr", "x.X", "expr"),
+    ("SelectorExpr#selectorExpr", "x.X", "token.HighestPrec"), ("StarExpr", "x.X", "prec"), ("StarExpr", "x.X", "prec"),
     ("UnaryExpr", "x", "expr"), ("UnaryExpr", "x.X", "prec"),
 ]
-REVIEWED_CONDS = [("BinaryExpr#binaryExpr", "prec < prec1"), ("StarExpr", "prec < prec1"), ("UnaryExpr", "prec < prec1")]
+REVIEWED_CONDS = [("BinaryExpr#binaryExpr", "prec < prec1"), ("ErrWrapExpr", "x.Default != nil && token.UnaryPrec < prec1"),
+                  ("LambdaExpr", "token.LowestPrec < prec1"), ("LambdaExpr2", "token.LowestPrec < prec1"),
+                  ("StarExpr", "prec < prec1"), ("UnaryExpr", "prec < prec1")]
 MODELLED = set(k for k, _, _ in REVIEWED_OPERANDS) | {"Ident", "BasicLit"}
 
 
